@@ -287,11 +287,14 @@ fn expr(p: &mut Parser) -> CompletedMarker {
 
 		if p.at(T![local]) {
 			p.bump();
+			let mut first = true;
 			loop {
-				if p.at(T![;]) {
+				// `;` closes the list after a trailing comma, but at least one binding is required
+				if !first && p.at(T![;]) {
 					p.bump();
 					break;
 				}
+				first = false;
 				bind(p);
 
 				if p.at(T![,]) {
